@@ -245,6 +245,27 @@ func TestC13(t *testing.T) {
 					Expected: strings.Join(order, ","), Observed: strings.Join(seen, ",")})
 			}
 		})
+		// rejected texts are runs too: texts with several lexical and syntax errors on different lines name the same
+		// first diagnostic every time
+		c.Rapid("texts-with-several-errors", n/2, func(rt *rapid.T, s *Sub) {
+			good := []string{bn.KwPrint + " 1;", bn.KwVar + " v = 2;", "{ " + bn.KwPrint + " \"b\"; }", "// note", "", bn.KwIf + " (1) " + bn.KwPrint + " 3;"}
+			bad := []string{bn.KwPrint + " 1 # 2;", "@", bn.KwPrint + " \"open;", bn.KwPrint + " 'q';", "x = 1 $ 2;", bn.KwPrint + " ;", "1 = 2;", bn.KwPrint + " 1", ")", bn.KwVar + " " + bn.BLen + " = 1;", "` ~ `", bn.KwPrint + " 1 ? 2 : 3;", "\\", bn.KwFun + " (", "}"}
+			nl := rapid.IntRange(3, 12).Draw(rt, "lines")
+			nbad := 0
+			var b strings.Builder
+			for i := 0; i < nl; i++ {
+				if rapid.IntRange(0, 2).Draw(rt, "bad") == 0 {
+					b.WriteString(rapid.SampledFrom(bad).Draw(rt, "badLine") + "\n")
+					nbad++
+				} else {
+					b.WriteString(rapid.SampledFrom(good).Draw(rt, "goodLine") + "\n")
+				}
+			}
+			if nbad < 2 {
+				b.WriteString(bad[0] + "\n" + bad[1] + "\n")
+			}
+			c.c13Program(s, "texts-with-several-errors", seedProg{Src: b.String(), Kind: "several-errors"}, nBatch, nCLI, true)
+		})
 		c.Rapid("generated-programs", n, func(rt *rapid.T, s *Sub) {
 			seed := drawSeed(rt, examples)
 			c.c13Program(s, "generated-programs", seed, nBatch, 0, strings.Contains(seed.Src, "{") && (seed.Kind == "objects" || seed.Kind == "numbers-objects"))
